@@ -167,7 +167,7 @@ static Interpreter mk(const std::string& xml, Mon* mon, bool copy = true) {
 static int modeProducers(const std::string& xml) {
 	int N = argl("producers", 4), M = argl("events", 500);
 	Mon mon; Interpreter ip = mk(xml, &mon);
-	for (int i = 0; i < 6; i++) ip.step(0);     // initialise and reach idle
+	if (argl("early", 0) == 0) for (int i = 0; i < 6; i++) ip.step(0);     // initialise and reach idle; early=1: producers race with the first step() (lazy creation of queue and microstepper)
 	std::atomic<int> live(N);
 	std::vector<std::thread> th;
 	for (int i = 0; i < N; i++) th.push_back(std::thread([&, i] {
